@@ -27,7 +27,7 @@ import (
 var embeddedConfigLogs = append([]byte{}, omniwitness.ConfigLogs...)
 
 var c17Files = []string{"logs.yaml", "logs_test.yaml"}
-var c17Nets = []string{"drop", "stall", "garbage:7", "status:500", "empty", "status:404", "status:403", "othershard"}
+var c17Nets = []string{"drop", "stall", "garbage:7", "status:500", "empty", "status:404", "status:403", "othershard", "emptysth"}
 
 func c17Config(file string) ([]byte, error) {
 	if file == "logs.yaml" {
@@ -44,7 +44,7 @@ func init() {
 	register(&Scenario{
 		Prop:  "C17",
 		Level: "exploration",
-		Rule:  "finite: for each of the two shipped files (logs.yaml as embedded in the build, logs_test.yaml from the working tree) and each of 8 hostile networks (every host down, stalled past the timeout, serving garbage, 500, empty bodies, 404, 403, and well-formed answers that do not list the configured Rekor trees) the real omniwitness.Main is booted in a synctest bubble with polling and the distributor enabled and run for 10 simulated minutes, stopped, and booted once more in the same process: it must not return or panic, and every entry with a feeder must issue at least one request to its configured host with the path its feeder type starts from; and, through the same loaders Main uses: every key parses, no two IDs collide, feeder types are known, URLs are well-formed with a supported scheme, rekor URLs carry treeID, the witness map and the feeder list name the same IDs. evaluations = entries x networks; every entry is covered in each run (exhaustive over entries); non-trivial = an entry with a feeder; distinct = (file, entry origin)",
+		Rule:  "finite: for each of the two shipped files (logs.yaml as embedded in the build, logs_test.yaml from the working tree) and each of 9 hostile networks (every host down, stalled past the timeout, serving garbage, 500, empty bodies, 404, 403, well-formed answers that do not list the configured Rekor trees, and answers that list them with empty or line-less tree heads) the real omniwitness.Main is booted in a synctest bubble with polling and the distributor enabled and run for 10 simulated minutes, stopped, and booted once more in the same process: it must not return or panic, and every entry with a feeder must issue at least one request to its configured host with the path its feeder type starts from; and, through the same loaders Main uses: every key parses, no two IDs collide, feeder types are known, URLs are well-formed with a supported scheme, rekor URLs carry treeID, the witness map and the feeder list name the same IDs. evaluations = entries x networks; every entry is covered in each run (exhaustive over entries); non-trivial = an entry with a feeder; distinct = (file, entry origin)",
 		Total: func(tier string) uint64 { return uint64(len(c17Files) * len(c17Nets)) },
 		Gen: func(r *Rng, tier string, n uint64) *Plan {
 			p := &Plan{Scenario: "config"}
@@ -165,12 +165,28 @@ func init() {
 					omniwitness.ConfigLogs = raw
 					sn := NewSimNet()
 					sn.Default = netKind
-					if netKind == "othershard" {
+					if netKind == "othershard" || netKind == "emptysth" {
 						sn.Default = ""
 					}
 					for _, l := range cfg.Logs {
 						if u, err := url.Parse(l.URL); err == nil {
 							sn.Hosts[u.Host] = http.HandlerFunc(func(rw http.ResponseWriter, rq *http.Request) {
+								if netKind == "emptysth" && rq.URL.Path == "/api/v1/log" {
+									// a Rekor that lists every configured tree but with tree heads that are empty or lack their line structure
+									var inact []string
+									for _, l2 := range cfg.Logs {
+										if u2, err := url.Parse(l2.URL); err == nil && l2.Feeder == omniwitness.Rekor && u2.Host == rq.Host {
+											inact = append(inact, fmt.Sprintf(`{"signedTreeHead":%q,"treeID":%q,"treeSize":1,"rootHash":"00"}`, []string{"", "x", "no newline at all"}[len(inact)%3], u2.Query().Get("treeID")))
+										}
+									}
+									active := `"signedTreeHead":"","treeID":"999","treeSize":1,"rootHash":"00"`
+									if len(inact) > 0 {
+										active = strings.Trim(inact[0], "{}")
+										inact = inact[1:]
+									}
+									fmt.Fprintf(rw, `{%s,"inactiveShards":[%s]}`, active, strings.Join(inact, ","))
+									return
+								}
 								if netKind == "othershard" && rq.URL.Path == "/api/v1/log" {
 									// a Rekor that answers properly but, for now, does not list the configured trees (a lagging replica)
 									rw.Write([]byte(`{"signedTreeHead":"other.example/log\n1\nAAAA\n\n\u2014 k AAAAAAAA\n","treeID":"999","treeSize":1,"rootHash":"00","inactiveShards":[]}`))
@@ -207,6 +223,28 @@ func init() {
 						add("startup_failed", "main_returned", fmt.Sprintf("%s / network %s: Main returned after %v: %v", file, netKind, time.Since(time.Date(2000, 1, 1, 0, 0, 0, 0, time.UTC)), merr))
 					}
 					reqs := sn.Requests()
+					// entries that share a host and a starting path (the shards of one Rekor instance) each have a feeder of their
+					// own: in the first seconds after the start that path is asked for at least once per such entry
+					sharers := map[string]int{}
+					early := map[string]int{}
+					bootT := time.Date(2000, 1, 1, 0, 0, 0, 0, time.UTC)
+					for _, l := range cfg.Logs {
+						if l.Feeder == omniwitness.Rekor {
+							if u, err := url.Parse(l.URL); err == nil {
+								sharers[u.Host]++
+							}
+						}
+					}
+					for _, q := range reqs {
+						if q.Method == "GET" && strings.HasSuffix(q.Path, "api/v1/log?stable=true") && q.At.Sub(bootT) < 5*time.Second {
+							early[q.Host]++
+						}
+					}
+					for host, n := range sharers {
+						if early[host] < n && !returned {
+							add("no_wellformed_request", "rekor_shards_share_a_feeder", fmt.Sprintf("%s / network %s: %d entries are Rekor trees on %s, each with a feeder of its own, but only %d first polls reached it in the first 5 simulated seconds", file, netKind, n, host, early[host]))
+						}
+					}
 					for _, l := range cfg.Logs {
 						if l.Feeder == omniwitness.None {
 							continue
